@@ -10,6 +10,7 @@ import SodiumModel.Driver.C18
 import SodiumModel.Driver.C17
 import SodiumModel.Driver.C20
 import SodiumModel.Driver.C10
+import SodiumModel.Driver.C05
 open Sodium.Driver
 
 def handlers : List (String → List String → Option String) := [
@@ -22,7 +23,8 @@ def handlers : List (String → List String → Option String) := [
   Sodium.Driver.C18.handle,
   Sodium.Driver.C17.handle,
   Sodium.Driver.C20.handle,
-  Sodium.Driver.C10.handle
+  Sodium.Driver.C10.handle,
+  Sodium.Driver.C05.handle
 ]
 
 /-- state carried between op lines (stateful families only) -/
